@@ -48,6 +48,13 @@ func daemonMain(self string) {
 	}
 	dir := os.Getenv("C20_DIR")
 	token := os.Getenv("C20_TOKEN")
+	if n := os.Getenv("C20_NESTED"); n != "" {
+		// a supervisor daemon: before it reports Done() it launches a worker daemon of its own (the worker does not
+		// launch anything itself)
+		os.Unsetenv("C20_NESTED")
+		pid, err := daemon.Launch(n)
+		os.WriteFile(filepath.Join(dir, fmt.Sprintf("nested.%d", os.Getpid())), []byte(fmt.Sprintf("%d %v", pid, err)), 0o644)
+	}
 	switch os.Getenv("C20_CLEANS_ENV") {
 	case "1":
 		// a daemon that will start helpers from the same binary must not pass the daemon variables on to them
@@ -115,6 +122,7 @@ type kase struct {
 	distinctNames    bool // concurrent launches ask for handlers registered under different names
 	cleansEnv        int  // the handler changes its own environment before Done(): 1 unsets ENV_DAEMON_*, 2 os.Clearenv()
 	relativeArgv0    bool // the caller child is started through a relative path (./prog)
+	nested           bool // the launched daemon is a supervisor: it launches a worker daemon itself before Done()
 }
 
 func (k kase) name(i int) string {
@@ -141,6 +149,9 @@ func (k kase) String() string {
 	}
 	if k.relativeArgv0 {
 		s += " callerStartedAsDotSlashProg"
+	}
+	if k.nested {
+		s += " daemonLaunchesAWorkerDaemonItself"
 	}
 	return s
 }
@@ -189,6 +200,9 @@ func runCase(k kase) string {
 	defer os.RemoveAll(dir)
 	token := fmt.Sprintf("tok-%d-%d", k.delayMs, k.pauseMs)
 	env := map[string]string{"C20_DIR": dir, "C20_TOKEN": token, "C20_DELAY_MS": strconv.Itoa(k.delayMs), "VERIF_DAEMON_LAUNCH_PAUSE_MS": strconv.Itoa(k.pauseMs), "C20_CLEANS_ENV": strconv.Itoa(k.cleansEnv)}
+	if k.nested {
+		env["C20_NESTED"] = daemonNames[len(daemonNames)-1]
+	}
 	type result struct {
 		pid       int
 		err       string
@@ -330,6 +344,27 @@ func runCase(k kase) string {
 		}
 		if st.ppid == os.Getpid() {
 			return fmt.Sprintf("launch #%d: the daemon (pid %d) is a child of the test process", i, r.pid)
+		}
+		if k.nested {
+			// the supervisor's own Launch happened before its Done(): it must have worked like any other
+			nb, err := os.ReadFile(filepath.Join(dir, fmt.Sprintf("nested.%d", r.pid)))
+			if err != nil {
+				return fmt.Sprintf("launch #%d: the daemon (pid %d) was to launch a worker daemon before Done(), but left no result: %v", i, r.pid, err)
+			}
+			var npid int
+			var nerr string
+			fmt.Sscanf(string(nb), "%d %s", &npid, &nerr)
+			if npid <= 0 || !strings.HasSuffix(strings.TrimSpace(string(nb)), "<nil>") {
+				return fmt.Sprintf("launch #%d: Launch(%q) called inside the daemon (pid %d) returned %q, want a pid and <nil>", i, daemonNames[len(daemonNames)-1], r.pid, nb)
+			}
+			pids = append(pids, npid)
+			wb, err := os.ReadFile(filepath.Join(dir, fmt.Sprintf("marker.%d", npid)))
+			if want := fmt.Sprintf("%d %s %s", npid, token, daemonNames[len(daemonNames)-1]); err != nil || string(wb) != want {
+				return fmt.Sprintf("launch #%d: the worker daemon (pid %d) launched from inside the daemon left marker %q (err %v), want %q", i, npid, wb, err, want)
+			}
+			if !alive(npid) {
+				return fmt.Sprintf("launch #%d: the worker daemon (pid %d) launched from inside the daemon is not running", i, npid)
+			}
 		}
 	}
 	// the daemons keep running after the caller has gone: each one gets past its first output after Done()
@@ -498,6 +533,7 @@ func TestGenerated(t *testing.T) {
 		k.distinctNames = k.concurrent >= 2 && rapid.IntRange(0, 2).Draw(t, "distinctNames") > 0
 		k.cleansEnv = rapid.SampledFrom([]int{0, 0, 0, 1, 2}).Draw(t, "handlerCleansEnv")
 		k.relativeArgv0 = k.childCaller && rapid.IntRange(0, 2).Draw(t, "relativeArgv0") == 0
+		k.nested = k.cleansEnv == 0 && rapid.IntRange(0, 3).Draw(t, "daemonLaunchesAWorker") == 0
 		msg := runCase(k)
 		if strings.HasPrefix(msg, "harness:") {
 			ev.Inconclusive(1)
@@ -520,6 +556,9 @@ func TestGenerated(t *testing.T) {
 		}
 		if k.relativeArgv0 {
 			ev.Label("caller_started_through_a_relative_path")
+		}
+		if k.nested {
+			ev.Label("daemon_launches_a_worker_daemon_before_Done")
 		}
 		ev.Case(k.nontrivial(), ev.Hash(k.String()), k.String)
 	})
